@@ -38,7 +38,7 @@ from oracles import cellcheck
 
 scheduler.DIMENSION_COUNT = 3
 
-CELL_PROPS = ('C01', 'C03', 'C04', 'C05', 'C06', 'C08')
+CELL_PROPS = ('C01', 'C03', 'C04', 'C05', 'C06', 'C08', 'C02')
 _TRUTH = None
 _WRAPPED = False
 
@@ -92,6 +92,9 @@ class MasterTruth:
         self.down = {}            # server -> [smin, smax] (observation based)
         self.last_not_down = {}   # server -> time last observed not down
         self.view = set()         # presence as the master has been told
+        self.admin_down = set()   # servers an admin 'down' event put down
+        #                           (and no later event / presence change
+        #                           brought back)
         self.absent = {}          # server -> [tmin, tmax]: the master handled
         #                           a presence snapshot without the server
         #                           while its presence node was gone
@@ -463,6 +466,7 @@ class World:
                 truth.groups[name] = data.get('count', 0)
         truth.view = set(zk.children(z.SERVER_PRESENCE) or [])
         truth.absent = {}
+        truth.admin_down = set()
         truth.frozen = set()
         for name in truth.srv:
             stored = self._zk_obj(z.path.placement(name))
@@ -501,6 +505,8 @@ class World:
             for name in events or []:
                 if name in children and name in truth.srv:
                     self._truth_server(name)     # reloaded on coming up
+            for name in children:
+                truth.admin_down.discard(name)
             now = self.clock.peek()
             for name in sorted(truth.srv):
                 if name in children or self.zk.nodes.get(
@@ -551,6 +557,10 @@ class World:
                         truth.absent.pop(name, None)
                         if name not in truth.srv:
                             continue
+                        if state == 'down':
+                            truth.admin_down.add(name)
+                        else:
+                            truth.admin_down.discard(name)
                         if state == 'frozen':
                             truth.frozen.add(name)
                             server = self.master.servers.get(name)
@@ -590,7 +600,8 @@ class World:
     def cycle_hook(self, cell, orig_schedule):
         """Observe a cell.schedule() made by the real Master (C01/C04/C05 at
         master level: the ZooKeeper->model path is part of the run)."""
-        if cell is not self.cur_cell or self.prop not in CELL_PROPS:
+        if cell is not self.cur_cell or self.prop not in CELL_PROPS or \
+                self.prop == 'C02':
             return orig_schedule(cell)
         ctx = cellcheck.CycleCtx(cell, self.truth)
         ctx.pre = cellcheck.snapshot_apps(cell)
@@ -961,6 +972,171 @@ class World:
         if nw > 2:
             self.nontrivial += 1
         self.after_cycle('cycle', caught_up)
+
+    # -- C02 at master level
+    def _m_probe_fits(self, inst, manifest):
+        """The harness's own scan of the ZooKeeper records: a server that is
+        defined, attached to the cell, present, recorded as up, in the
+        instance's partition, with the traits, room in every dimension
+        (declared capacity minus what is recorded under it) and affinity
+        head-room at every level.  Returns (server, free) or None."""
+        import math
+        truth = self.truth
+        zk = self.zk
+        part, _path, alloc = truth.assign(inst)
+        if alloc is not None and alloc.get('max_utilization') is not None:
+            return None
+        need = set(manifest.get('traits') or [])
+        if alloc is not None:
+            need |= set(alloc.get('traits') or [])
+        demand = _own_vec(manifest)
+        limits = manifest.get('affinity_limits') or {}
+        aff = manifest.get('affinity')
+        attached = set(zk.children(z.CELL) or [])
+        stored = self.stored_placement()
+        scheduled = set(zk.children(z.SCHEDULED) or [])
+        chain = {}                    # server -> [server, rack, pod.., cell]
+
+        def chain_of(sname):
+            if sname not in chain:
+                out = [('server', sname)]
+                data = self._zk_obj(z.path.server(sname)) or {}
+                parent = data.get('parent')
+                ok = False
+                for _ in range(6):
+                    if not parent:
+                        break
+                    bdata = self._zk_obj(z.path.bucket(parent))
+                    if bdata is None and \
+                            zk.nodes.get(z.path.bucket(parent)) is None:
+                        break
+                    out.append((parent.split(':')[0], parent))
+                    if parent in attached:
+                        ok = True
+                        break
+                    parent = (bdata or {}).get('parent')
+                out.append(('cell', 'cell'))
+                chain[sname] = out if ok else None
+            return chain[sname]
+
+        counts = {}
+        used = {}
+        for app, recs in stored.items():
+            if app not in scheduled or app == inst:
+                continue
+            man = self._zk_obj(z.path.scheduled(app)) or {}
+            for srv, _d in recs:
+                vec = _own_vec(man)
+                acc = used.setdefault(srv, [0.0, 0.0, 0.0])
+                for d in range(3):
+                    acc[d] += vec[d]
+                if man.get('affinity') == aff and chain_of(srv):
+                    for node in chain_of(srv):
+                        counts[node] = counts.get(node, 0) + 1
+        for sname in sorted(truth.srv):
+            data = self._zk_obj(z.path.server(sname))
+            if not data or not data.get('parent'):
+                continue
+            if zk.nodes.get(z.path.server_presence(sname)) is None:
+                continue
+            state = self._stored_state(sname)
+            if state == 'frozen' or sname in truth.admin_down:
+                continue
+            # (everything is handled and the server is present: unless an
+            # administrator put it down or it is frozen it is up, whatever
+            # the master recorded or failed to record)
+            nodes = chain_of(sname)
+            if not nodes:
+                continue
+            if (data.get('partition') or '_default') != part:
+                continue
+            if not need <= set(data.get('traits') or []):
+                continue
+            cap = [math.floor(x + 1e-9) for x in _own_vec(data)]
+            acc = used.get(sname, [0.0, 0.0, 0.0])
+            free = [cap[d] - acc[d] for d in range(3)]
+            if any(demand[d] > free[d] for d in range(3)):
+                continue
+            if any(limits.get(level) is not None and
+                   counts.get((level, name), 0) >= limits[level]
+                   for level, name in nodes):
+                continue
+            return (sname, free)
+        return None
+
+    def m_free(self, sname):
+        """Declared capacity of the server minus what is recorded under it
+        (whole units), by the harness's reading of the records."""
+        import math
+        data = self._zk_obj(z.path.server(sname))
+        if not data or not data.get('parent'):
+            return None
+        free = [math.floor(x + 1e-9) for x in _own_vec(data)]
+        scheduled = set(self.zk.children(z.SCHEDULED) or [])
+        for app in self.zk.children(z.path.placement(sname)) or []:
+            if app in scheduled:
+                vec = _own_vec(self._zk_obj(z.path.scheduled(app)) or {})
+                for d in range(3):
+                    free[d] -= vec[d]
+        return free
+
+    def op_m_probe(self, op):
+        """C02 through the real master: the cell is brought to rest (every
+        event handled, a cycle that writes nothing), one new instance is
+        submitted, the next cycle must place it if the harness's own scan of
+        the records finds a server that fits."""
+        if self.prop != 'C02' or self.master is None:
+            return
+        quiet = False
+        for _ in range(4):
+            self.op_drain({})
+            if self.master is None:
+                return
+            before = self.placement_digest()
+            self.master.up_to_date = False
+            self.op_master_cycle({})
+            if self.master is None or self.violation is not None:
+                return
+            for path in WATCHED:
+                self._snapshot(path)
+            if not self.queue and self.placement_digest() == before:
+                quiet = True
+                break
+        blacklist = self._zk_obj(z.BLACKEDOUT_APPS)
+        if not quiet or blacklist:
+            self.probes['probe_not_quiescent'] = \
+                self.probes.get('probe_not_quiescent', 0) + 1
+            return
+        manifest = op['manifest']
+        inst = masterapi.create_apps(self.admin, op['app_id'], manifest, 1)[0]
+        fit = self._m_probe_fits(inst, manifest)
+        self.op_drain({})
+        if self.master is None:
+            return
+        app = self.master.cell.apps.get(inst)
+        if app is None or app.priority != 1:
+            fit = None                # not loaded as asked: nothing to judge
+        self.op_master_cycle({})
+        if self.master is None or self.violation is not None:
+            return
+        app = self.master.cell.apps.get(inst)
+        placed = app is not None and app.server is not None
+        if fit is not None:
+            self.probes['probe_fit'] = self.probes.get('probe_fit', 0) + 1
+            self.nontrivial += 1
+            if not placed:
+                self.fail('C02:fits-but-pending:master-level',
+                          'probe %s %r fits server %s (free %r by the '
+                          'records) but was left pending' % (
+                              inst, manifest, fit[0], fit[1]))
+                return
+        else:
+            self.probes['probe_nofit'] = self.probes.get('probe_nofit', 0) + 1
+        self.log.ev('m_probe', inst, fit[0] if fit else None, placed)
+        masterapi.delete_apps(self.admin, [inst])
+        self.op_drain({})
+        if self.master is not None:
+            self.op_master_cycle({})
 
     def op_c11_probe(self, _op):
         """Restart probe between cycles, allowed in its strong form when the
@@ -1380,6 +1556,9 @@ class Generator:
         self.follow = []
         self.weights = [(k, w * config['wmul'].get(k, 1.0))
                         for k, w in OP_WEIGHTS]
+        if config.get('m_probe_weight'):
+            self.weights = [(k, config['m_probe_weight'] if k == 'm_probe'
+                             else w) for k, w in self.weights]
 
     def next_op(self, world):
         if self.follow:
@@ -1428,6 +1607,38 @@ class Generator:
             manifest['priority'] = rng.choice([0, 1, 10, 50, 100])
         return {'op': 'app_create', 'app_id': '%s.%s' % (proid, app),
                 'manifest': manifest, 'count': rng.choice([1, 1, 1, 2, 3])}
+
+    def g_m_probe(self, world):
+        rng = self.rng
+        cfg = self.config
+        proid = rng.choice(cfg['proids'])
+        app = rng.choice(['web', 'db', 'job'])
+        manifest = {
+            'memory': rng.choice(MEM_SPELL)(rng.randint(1, cfg['dem_hi']) *
+                                            256),
+            'cpu': rng.choice(CPU_SPELL)(rng.randint(1, cfg['dem_hi']) * 10),
+            'disk': rng.choice(MEM_SPELL)(rng.randint(1, cfg['dem_hi']) *
+                                          256),
+            'affinity': '%s.%s' % (proid, app),
+            'priority': 1,
+        }
+        limits = cfg['aff_limits'].get(manifest['affinity'])
+        if limits:
+            manifest['affinity_limits'] = limits
+        pool = cfg['traits'] + cfg.get('node_traits', [])
+        if pool and rng.random() < 0.3:
+            manifest['traits'] = [rng.choice(pool)]
+        names = self._servers(world)
+        if names and rng.random() < 0.6:
+            # cut to what one particular server has left, so that few other
+            # servers (often none) can take it
+            free = world.m_free(rng.choice(names))
+            if free and all(f >= 0 for f in free) and free[0] and free[2]:
+                manifest['memory'] = '%dM' % free[0]
+                manifest['cpu'] = '%d%%' % free[1]
+                manifest['disk'] = '%dM' % free[2]
+        return {'op': 'm_probe', 'app_id': '%s.%s' % (proid, app),
+                'manifest': manifest}
 
     def g_app_delete(self, world):
         names = self._scheduled(world)
@@ -1731,6 +1942,7 @@ OP_WEIGHTS = [
     ('flap_with_reload', 2), ('zombie_write', 1), ('probe_after_group', 2),
     ('pending_start_then_down', 2), ('servers_reload_all', 1),
     ('undefined_server_failover', 5), ('stale_record_failover', 3),
+    ('m_probe', 0),
 ]
 
 
@@ -1838,6 +2050,8 @@ def make_config(prop, tier, rng):
     # ZooKeeper promises no order of the children it lists: an arbitrary but
     # fixed order per run (None: sorted by name)
     cfg['child_order'] = rng.getrandbits(32) if rng.random() < 0.5 else None
+    if prop == 'C02':
+        cfg['m_probe_weight'] = 14
     return cfg
 
 
